@@ -53,7 +53,6 @@ theorem inInt_spec {v : Int} (h : inInt v = true) : minInt ≤ v ∧ v ≤ maxIn
 
 structure FeatureFacts (locus : Str) (f : Feature) : Prop where
   name : ∀ x ∈ ['\t', '\n', '\r'], x ∉ effName locus f
-  noHash : hasPrefix sHash1 (effName locus f) = false
   source : ∀ x ∈ ['\t', '\n', '\r'], x ∉ effSource f
   type : ∀ x ∈ ['\t', '\n', '\r'], x ∉ effType f
   score : ∀ x ∈ ['\t', '\n', '\r'], x ∉ f.score
@@ -66,10 +65,10 @@ structure FeatureFacts (locus : Str) (f : Feature) : Prop where
 theorem sFeature_free : ∀ x ∈ ['\t', '\n', '\r'], x ∉ sFeature := by decide
 theorem sUnknown_free : ∀ x ∈ ['\t', '\n', '\r'], x ∉ sUnknown := by decide
 
-theorem featureFacts {locus : Str} {f : Feature} (h : wfFeature locus f = true) : FeatureFacts locus f := by
-  simp only [wfFeature, wfCol, Bool.and_eq_true, Bool.not_eq_true'] at h
-  obtain ⟨⟨⟨⟨⟨⟨⟨⟨⟨⟨⟨h1, h2⟩, h3⟩, h4⟩, h5⟩, h6⟩, h7⟩, h8⟩, _⟩, h10⟩, h11⟩, h12⟩ := h
-  refine ⟨?_, h3, ?_, ?_, fun x hx => free_not_mem h6 hx, fun x hx => free_not_mem h7 hx,
+theorem featureFacts {locus : Str} {f : Feature} (h : wfFeatureQ locus f = true) : FeatureFacts locus f := by
+  simp only [wfFeatureQ, wfCol, Bool.and_eq_true] at h
+  obtain ⟨⟨⟨⟨⟨⟨⟨⟨⟨⟨h1, h2⟩, h4⟩, h5⟩, h6⟩, h7⟩, h8⟩, _⟩, h10⟩, h11⟩, h12⟩ := h
+  refine ⟨?_, ?_, ?_, fun x hx => free_not_mem h6 hx, fun x hx => free_not_mem h7 hx,
     fun x hx => free_not_mem h8 hx, inInt_spec h10, inInt_spec h11, attrFacts_of_wf h12⟩
   · intro x hx
     unfold effName
@@ -87,6 +86,13 @@ theorem featureFacts {locus : Str} {f : Feature} (h : wfFeature locus f = true) 
     · exact free_not_mem h5 hx
     · exact sUnknown_free x hx
 
+/-- `wfFeature` is `wfFeatureQ` plus "the written seqid does not begin with `#`" -/
+theorem wfFeature_split {locus : Str} {f : Feature} (h : wfFeature locus f = true) :
+    wfFeatureQ locus f = true ∧ hasPrefix sHash1 (effName locus f) = false := by
+  simp only [wfFeature, wfFeatureQ, effName, Bool.and_eq_true, Bool.not_eq_true'] at h ⊢
+  obtain ⟨⟨⟨⟨⟨⟨⟨⟨⟨⟨⟨h1, h2⟩, h3⟩, h4⟩, h5⟩, h6⟩, h7⟩, h8⟩, h9⟩, h10⟩, h11⟩, h12⟩ := h
+  exact ⟨⟨⟨⟨⟨⟨⟨⟨⟨⟨⟨h1, h2⟩, h4⟩, h5⟩, h6⟩, h7⟩, h8⟩, h9⟩, h10⟩, h11⟩, h12⟩, h3⟩
+
 theorem canonAttrs_perm {a : List (Str × Str)} (h : (a.map (·.1)).Nodup) : (canonAttrs a).Perm a :=
   sortedEntries_perm [] a h
 
@@ -103,7 +109,7 @@ theorem itoa_free_tabnl (v : Int) : ∀ x ∈ ['\t', '\n', '\r', ' '], x ∉ ito
 
 /-! ### Parse ∘ Build, feature by feature -/
 
-theorem parseFeature_build {locus : Str} {f : Feature} (h : wfFeature locus f = true) :
+theorem parseFeature_build {locus : Str} {f : Feature} (h : wfFeatureQ locus f = true) :
     parseFeature (buildFeature locus f) = .ok (expectedFeature locus f) := by
   have hf := featureFacts h
   rw [buildFeature_eq, parseFeature_cols _ _ _ _ _ _ _ _ _ false ?_ (canonAttrs_facts hf.attrs)]
@@ -124,15 +130,12 @@ theorem parseFeature_build {locus : Str} {f : Feature} (h : wfFeature locus f = 
     · exact hf.strand _ (by simp)
     · exact hf.phase _ (by simp)
 
-theorem buildFeature_line {locus : Str} {f : Feature} (h : wfFeature locus f = true) :
-    buildFeature locus f ≠ [] ∧ hasPrefix sHash1 (buildFeature locus f) = false
-      ∧ (∀ x ∈ ['\n', '\r'], x ∉ buildFeature locus f) := by
+theorem buildFeature_line {locus : Str} {f : Feature} (h : wfFeatureQ locus f = true) :
+    buildFeature locus f ≠ [] ∧ (∀ x ∈ ['\n', '\r'], x ∉ buildFeature locus f) := by
   have hf := featureFacts h
   rw [buildFeature_eq]
-  refine ⟨?_, ?_, ?_⟩
+  refine ⟨?_, ?_⟩
   · simp [joinSep]
-  · rw [joinSep_cons2]
-    exact hasPrefix_hash_col _ hf.noHash
   · intro x hx hm
     have hx3 : x ∈ ['\t', '\n', '\r'] := by
       simp only [List.mem_cons, List.not_mem_nil, or_false] at hx ⊢
@@ -155,14 +158,41 @@ theorem buildFeature_line {locus : Str} {f : Feature} (h : wfFeature locus f = t
       · exact hf.phase _ hx3 hc
       · exact col9_free (canonAttrs_facts hf.attrs) false hx3 hc
 
-theorem midOk_features (locus : Str) : ∀ (fs : List Feature), (∀ f ∈ fs, wfFeature locus f = true) →
-    MidOk (fs.map (buildFeature locus)) (fs.map (expectedFeature locus))
+/-- a written seqid that does not begin with `#`: the line is not a comment -/
+theorem buildFeature_nohash {locus : Str} {f : Feature} (hn : hasPrefix sHash1 (effName locus f) = false) :
+    hasPrefix sHash1 (buildFeature locus f) = false := by
+  rw [buildFeature_eq, joinSep_cons2]
+  exact hasPrefix_hash_col _ hn
+
+/-- a written seqid that begins with `#`: the line is a comment for `Parse` -/
+theorem buildFeature_hash {locus : Str} {f : Feature} (hh : hasPrefix sHash1 (effName locus f) = true) :
+    hasPrefix sHash1 (buildFeature locus f) = true ∧ buildFeature locus f ≠ sFasta := by
+  rw [buildFeature_eq, joinSep_cons2]
+  constructor
+  · cases hn : effName locus f with
+    | nil => rw [hn] at hh; simp [hasPrefix, sHash1] at hh
+    | cons a r =>
+      rw [hn] at hh
+      simpa [hasPrefix, sHash1, List.isPrefixOf] using hh
+  · intro e
+    have : '\t' ∈ sFasta := by rw [← e]; simp
+    exact absurd this (by decide)
+
+/-- the feature lines of a record: a line whose seqid begins with `#` is skipped, every other one is
+read back as the expected feature -/
+theorem midOk_features (locus : Str) : ∀ (fs : List Feature), (∀ f ∈ fs, wfFeatureQ locus f = true) →
+    MidOk (fs.map (buildFeature locus))
+      ((fs.filter fun f => !hasPrefix sHash1 (effName locus f)).map (expectedFeature locus))
   | [], _ => MidOk.nil
   | f :: fs, h => by
-    have hl := buildFeature_line (h f (by simp))
-    have h1 := MidOk.feature hl.1 hl.2.1 (parseFeature_build (h f (by simp)))
     have h2 := midOk_features locus fs (fun g hg => h g (by simp [hg]))
-    simpa using MidOk.append h1 h2
+    have hl := buildFeature_line (h f (by simp))
+    cases hh : hasPrefix sHash1 (effName locus f)
+    · have h1 := MidOk.feature hl.1 (buildFeature_nohash hh) (parseFeature_build (h f (by simp)))
+      simpa [List.filter, hh] using MidOk.append h1 h2
+    · have hs := buildFeature_hash hh
+      have h1 := MidOk.skip hs.1 hs.2
+      simpa [List.filter, hh] using MidOk.append h1 h2
 
 /-! ### the two header lines -/
 
